@@ -519,6 +519,50 @@ pub fn check_user_group(seed: u64, st: &mut Stats) {
     }
 }
 
+/// A molecule without any symmetry of its own (three unlike particles) in every group, its
+/// orientation often exactly 0, pi/2, pi: with circles and symmetric trimers a copy that should
+/// have been mirrored or turned looks the same as one that was not.
+pub fn check_chiral(seed: u64, st: &mut Stats) {
+    st.eval();
+    let mut rng = crate::common::rng_for(seed, 3535);
+    let group = groups::NAMES[rng.gen_range(0, 7)];
+    let copies = groups::group(group).unwrap().ops.len() as f64;
+    let p = Params {
+        len: rng.gen_range(2.5, 6.) * copies.sqrt(),
+        ratio: rng.gen_range(0.5, 1.),
+        angle: rng.gen_range(1.0, PI / 2.),
+        x: rng.gen_range(-0.5, 0.5),
+        y: rng.gen_range(-0.5, 0.5),
+        phi: if rng.gen_bool(0.6) { [0., 0., PI / 2., PI, 2. * PI][rng.gen_range(0, 5)] } else { rng.gen_range(0., 2. * PI) },
+    };
+    let state = match build_potential(super::c04::chiral_lj(), group, &p) {
+        Ok(s) => s,
+        Err(_) => return,
+    };
+    let atoms = lj_atoms(&state.shape);
+    let pl: Vec<Affine> = state.cartesian_positions().map(|t| to_affine(&t)).collect();
+    let lat = lattice_of(&state.cell);
+    let r = reference(&atoms, &pl, &lat, 40.);
+    let s = match state.score() {
+        Some(s) if s.is_finite() => s,
+        _ => return,
+    };
+    if r.degenerate {
+        return;
+    }
+    st.nontrivial(hash64(&[3536, seed]));
+    st.count("states_of_a_molecule_without_symmetry");
+    let tol = tolerance(&r);
+    if !((s + r.energy).abs() <= tol) && !is_three_shell_sum(s, &r) {
+        st.violation(Violation {
+            kind: "c03.chiral".into(),
+            signature: "PotentialState::score:not-the-lattice-energy-per-molecule".into(),
+            case: json!({ "chiral_seed": seed }),
+            detail: json!({"group": group, "params": p.to_json(), "library_score": s, "minus_lattice_energy_per_molecule": -r.energy, "tolerance": tol}),
+        });
+    }
+}
+
 /// one Lennard-Jones state object edited again and again; clause 1 after every edit
 pub fn check_history(h: &History, st: &mut Stats) {
     let before = st.violations.len();
@@ -561,7 +605,7 @@ pub fn gen_history<R: Rng>(rng: &mut R) -> History {
 }
 
 pub fn run(ctx: &Ctx) {
-    ctx.set_rule("Lennard-Jones states of all 7 groups x {circle (uncut), trimers over the CLI's ranges (cutoff 3.5)} x cells (ratio 0.25-1, oblique angle pi/6-pi/2) at densities from strongly overlapping (0.3 molecule areas per molecule) to dilute (6), sites incl. special positions. Reference: exhaustive sum over EVERY pair of distinct molecule images within cutoff + extents (uncut: 40 sigma), each once, divided by N; pair kernel = the library's LJ2::energy (checked by C13) and, for like particles, the independent 12-6 law. Tolerance 1e-9 of the summed term magnitudes (uncut: 3% of the attractive sum). Also states of user-defined p4 / p3 / p6 groups on square and 60-degree cells (the copies the library places, stretched or not). Also state objects that live through histories of 3-13 edits (several parameters at once, shape or cell replaced, clone(), JSON round trip), clause 1 after every edit. Also states with several occupied sites of different multiplicity (and with dozens of sites: 33-140 molecules per cell) (PotentialState::initialise with hand-made sites). Metamorphic: a copy moved across a cell face (1/2-1e-9 vs -1/2+1e-9) and origin shifts by the group's normaliser translations must not change the score. Non-trivial = at least one in-cell pair and one image pair carry energy; distinct by quantised parameters");
+    ctx.set_rule("Lennard-Jones states of all 7 groups x {circle (uncut), trimers over the CLI's ranges (cutoff 3.5)} x cells (ratio 0.25-1, oblique angle pi/6-pi/2) at densities from strongly overlapping (0.3 molecule areas per molecule) to dilute (6), sites incl. special positions. Reference: exhaustive sum over EVERY pair of distinct molecule images within cutoff + extents (uncut: 40 sigma), each once, divided by N; pair kernel = the library's LJ2::energy (checked by C13) and, for like particles, the independent 12-6 law. Tolerance 1e-9 of the summed term magnitudes (uncut: 3% of the attractive sum). Also states of a molecule without symmetry (three unlike particles) at orientations 0, pi/2, pi and random. Also states of user-defined p4 / p3 / p6 groups on square and 60-degree cells (the copies the library places, stretched or not). Also state objects that live through histories of 3-13 edits (several parameters at once, shape or cell replaced, clone(), JSON round trip), clause 1 after every edit. Also states with several occupied sites of different multiplicity (and with dozens of sites: 33-140 molecules per cell) (PotentialState::initialise with hand-made sites). Metamorphic: a copy moved across a cell face (1/2-1e-9 vs -1/2+1e-9) and origin shifts by the group's normaliser translations must not change the score. Non-trivial = at least one in-cell pair and one image pair carry energy; distinct by quantised parameters");
     ctx.assume("pair energies are the library's own (C13 decides them); placements are read from cartesian_positions()");
     let n = ctx.tier.pick(5_000u64, 300_000u64);
     par_shards(ctx, 3, 64, |_, rng, st| {
@@ -574,6 +618,9 @@ pub fn run(ctx: &Ctx) {
         for _ in 0..(n / 30).max(5) {
             check_user_group(rng.gen(), st);
         }
+        for _ in 0..(n / 20).max(5) {
+            check_chiral(rng.gen(), st);
+        }
         for _ in 0..(n / 50).max(5) {
             check_multi_site(rng.gen(), st);
         }
@@ -585,6 +632,8 @@ pub fn replay(ctx: &Ctx, case: &Value) {
     let mut st = Stats::new();
     if let (Some(seed), true) = (case["seed"].as_u64(), case.get("group").is_none()) {
         check_multi_site(seed, &mut st);
+    } else if let Some(seed) = case["chiral_seed"].as_u64() {
+        check_chiral(seed, &mut st);
     } else if let Some(seed) = case["user_group_seed"].as_u64() {
         check_user_group(seed, &mut st);
     } else if let Ok(h) = serde_json::from_value::<History>(case.clone()) {
